@@ -423,6 +423,8 @@ func main() {
 				cfgs = append(cfgs, &cfg{Name: "size=value L=4 K=4", Limit: 4, Keys: 4, Values: []int{0, 1, 2, 3}, BySize: true})
 				// Key-symmetric search reaches the limits where F2 lives on every change.
 				cfgs = append(cfgs, unit(6, 7, []int{7}, true), unit(7, 8, []int{7}, true), unit(8, 9, []int{7}, true))
+				// key-symmetric with two sizes: one Put can evict several entries from a heap of seven
+				cfgs = append(cfgs, &cfg{Name: "size=value L=7 K=8 sym=true", Limit: 7, Keys: 8, Values: []int{1, 4}, BySize: true, Sym: true})
 				if !r.Quick() {
 					cfgs = append(cfgs, unit(6, 7, []int{7}, false), unit(5, 7, []int{0, 1}, false), unit(9, 10, []int{7}, true),
 						&cfg{Name: "size=value L=5 K=4", Limit: 5, Keys: 4, Values: []int{0, 1, 2, 3, 5, 6}, BySize: true},
